@@ -4,6 +4,8 @@ C12 — The environment API behaves as a chain of dictionaries.
 Theorems over the heap-of-scopes model of env/*.go (Anko.Model.EnvApi).
 -/
 import Anko.Model.EnvApi
+import Anko.Gen.EnvFlow
+import Anko.Props.EnvFlowTable
 
 namespace Anko.C12
 open Anko.EnvApi
@@ -277,5 +279,13 @@ theorem history_errors_change_nothing : ∀ (ops : List Op) (h : Heap), (∀ op 
 
 example : (run init [.define 0 "a" (.int 1), .newEnv 0, .set 1 "a" (.int 2), .get 0 "a", .set 1 "zz" (.int 3), .define 1 "x.y" (.int 1)]).1 =
     [.unit, .scope 1, .unit, .val (.int 2), .err "undefined symbol 'zz'", .err "symbol contains '.'"] := by decide
+
+
+/-! ### The environment API in the source (regenerated: Gen/EnvFlow)
+
+Every leaf statement of every method of the environment API (env/env.go, envValues.go, envTypes.go), with the conditions it stands
+under, is the one written down in Props/EnvFlowTable next to Model/EnvApi. A lookup order changed, a binding created where only an
+update is allowed, a dotted name let through, a table of the wrong scope touched, a copy taken in pieces makes the tables differ. -/
+theorem environment_methods_are_the_modelled_ones : Gen.EnvFlow.leaves = Tables.envFlow := by decide +kernel
 
 end Anko.C12
